@@ -196,6 +196,12 @@ impl<T> Outcome<T> {
             o => o.kind().to_string(),
         }
     }
+    pub fn panic_site(&self) -> Option<String> {
+        match self {
+            Outcome::Panic(s) => Some(s.clone()),
+            _ => None,
+        }
+    }
     pub fn is_ok(&self) -> bool {
         matches!(self, Outcome::Ok(_))
     }
